@@ -1117,20 +1117,12 @@ static inline void DomIter_inc_discard(DomIter *it) { DomIter r; DomIter_inc(it,
 
 
 def typecheck(cfile, qtdir):
-    """goto-cc accepts int <-> pointer mix-ups silently: compile the generated C (contract clauses stripped) with a strict
-    ordinary compiler first, so that a lowering slip is a tool error (exit 2) and never a wrong proof"""
-    import subprocess
-    from vlib.runner import ToolError
-    txt = open(cfile).read()
-    txt = re.sub(r'^\s*__CPROVER_(requires|ensures|assigns|loop_invariant|decreases)\(.*\)[ \t]*(;?)[ \t]*$', r'\2', txt, flags=re.M)
-    chk = cfile[:-2] + '.typecheck.c'
-    open(chk, 'w').write(txt)
-    cmd = ['gcc', '-std=gnu11', '-fsyntax-only', '-Werror=int-conversion', '-Werror=incompatible-pointer-types',
-           '-Werror=implicit-function-declaration', '-Werror=return-type', '-Werror=implicit-int', '-DVERIF_CBMC', '-I', qtdir,
-           '-D__CPROVER_assert(c,m)=((void)(c))', '-D__CPROVER_assume(c)=((void)(c))', chk]
-    p = subprocess.run(cmd, stdout=subprocess.PIPE, stderr=subprocess.STDOUT, text=True)
-    if p.returncode != 0:
-        raise ToolError('generated C does not type-check strictly (%s): %s' % (os.path.basename(cfile), p.stdout[-1500:]))
+    """strict type check of the generated C (the shared implementation in vlib/runner.py: preprocess, strip contract clauses,
+    gcc -Werror=int-conversion ...); a lowering slip is a tool error (exit 2) and never a wrong proof"""
+    from vlib.runner import ToolError, typecheck as strict_typecheck
+    err = strict_typecheck(cfile, [qtdir])
+    if err:
+        raise ToolError('generated C does not type-check strictly (%s): %s' % (os.path.basename(cfile), err))
 
 
 # ---------------------------------------------------------------------------------------------------------------------
